@@ -8,5 +8,6 @@ CONSTANTS
     CreateUnderLock = TRUE
     MayFail = TRUE
     MayForget = TRUE
+    MayPanic = TRUE
 INVARIANTS TypeOK MutexOK
 PROPERTIES GetReturns DropReturns
